@@ -533,8 +533,27 @@ def m_hasattr(I, args, kw):
         raise
 
 
+def has_attr_fn(obj):
+    """Uninterpreted predicate 'the module / class obj has an attribute with this name' over symbolic texts."""
+    name = getattr(obj, "__name__", None) or f"obj{id(obj)}"
+    return z3.Function(f"hasattr!{name}", z3.ArraySort(z3.IntSort(), z3.IntSort()), z3.IntSort(), z3.BoolSort())
+
+
 def m_getattr(I, args, kw):
     obj, name = args[0], args[1]
+    if isinstance(name, SeqV) and seqops.to_py(name) is None and len(args) > 2 and getattr(I, "allow_text_conversions", False) \
+            and not isinstance(obj, (Ref, Sym, SeqV)):
+        # lookup of a SYMBOLIC name in a live module / class (contracts that do not speak about the value found): the default
+        # when the uninterpreted predicate has_attr(name) is false, else some object
+        arr, n, _ = seqops.as_array(name)
+        if not all(isinstance(k, str) and k.isidentifier() for k in vars(obj)):
+            raise Unsupported("symbolic getattr on an object whose attribute names are not all identifiers")
+        if I.path.decide(has_attr_fn(obj)(arr, to_term(n, "int"))):
+            # every attribute name of obj is an identifier: it starts with a letter or an underscore (or a non-ASCII letter)
+            c0 = z3.Select(arr, 0)
+            I.path.assume(z3.And(to_term(n, "int") >= 1, z3.Or(z3.And(c0 >= 65, c0 <= 90), z3.And(c0 >= 97, c0 <= 122), c0 == 95, c0 >= 128)))
+            return Opaque(object, "attribute looked up by a symbolic name")
+        return args[2]
     try:
         return I.get_attr(obj, name)
     except PyRaise as pr:
